@@ -6,7 +6,7 @@ import tempfile
 
 from harness import ops
 
-COQDIR = '/verif/coq'
+COQDIR = os.path.join(os.path.dirname(os.path.dirname(os.path.abspath(__file__))), 'coq')
 
 
 def history_term(case):
